@@ -95,6 +95,7 @@ func runK2(e *env, name string, batches []*k2Batch) (*k2Result, error) {
 			}
 			module := fmt.Sprintf("example.org/%s%d", strings.ToLower(name), bi)
 			root := filepath.Join(base, fmt.Sprintf("b%d", bi))
+			_ = os.RemoveAll(root) // an earlier campaign stage of the same property may have used the directory
 			var convs strings.Builder
 			for _, n := range kb.Order {
 				convs.WriteString(strings.ReplaceAll(kb.Convs[n], "MODULE", module))
